@@ -559,15 +559,15 @@ Definition kstep (s : kstate) : pyres (kstate * list (list kentry)) :=
           | Err e => Err e
           | Ok (st, p) => Ok (mkK st p (k_buffer s) (k_bsize s) (k_never s), [])
           end in
-        let give_up :=
+        let abandon :=
           match backtrack rest path with
           | Err e => Err e
           | Ok (st, p) => Ok (mkK st p (k_buffer s) (k_bsize s) (k_never s), [])
           end in
         if negb (lp =? 0) then
-          if bond =? 2 then (if nonempty db then continue_with ((lp, atom, 1, None) :: top) bond else give_up)
+          if bond =? 2 then (if nonempty db then continue_with ((lp, atom, 1, None) :: top) bond else abandon)
           else if nonempty db then
-            (if nonempty for_stack || indb atom || inpyr atom then continue_with ((lp, atom, 1, None) :: top) bond else give_up)
+            (if nonempty for_stack || indb atom || inpyr atom then continue_with ((lp, atom, 1, None) :: top) bond else abandon)
           else continue_with ((lp, atom, 2, None) :: top) 2
         else continue_with top bond
       else Ok (mkK (top :: rest) path (k_buffer s) (k_bsize s) (k_never s), [])
